@@ -54,19 +54,19 @@ def shards(tier, prop):
             out.append(G('delay', [(0, 2), (1, 2), (1, 2), (0, 2), (0, 2), (0, 2), (0, 2), (0, 1)], props, alg=alg, vol=10))
         out.append(G('three', R_THREE, props, alg='queue', shape='join'))
     elif prop == 'C17':
-        RS = [(0, 2), (0, 2), (0, 2), (0, 2), (0, 2), (0, 2), (0, 2), (0, 2)]
-        out.append(G('static', RS, props, alg='dynamic'))
-        out.append(G('static', RS, props, alg='dynamic', edge=False, g2=2))
-        out.append(G('static', RS, props, alg='dynamic', machines=[10, 20, 20], d1=2, d2=1))
+        RS = [(0, 2), (1, 2), (0, 1), (0, 2), (0, 2), (0, 2), (0, 2), (0, 2)]
+        out.append(G('static', RS, props, T=400, alg='dynamic'))
+        out.append(G('static', RS, props, T=400, alg='dynamic', edge=False, g2=2))
+        out.append(G('static', RS, props, T=400, alg='dynamic', machines=[10, 20, 20], d1=2, d2=1))
     elif prop == 'C01':
         for alg in ALG3:
             out.append(G('two', R_TWO, props, alg=alg))
         # one-machine reservations that are released, then a later ingest that needs two machines
         out.append(G('singles', R_SINGLES, props, alg='batch3'))
         out.append(G('singles', R_SINGLES, props, alg='queue'))
-        RS = [(0, 2), (0, 2), (0, 2), (0, 2), (0, 2), (0, 2), (0, 2), (0, 2)]
-        out.append(G('static', RS, props, alg='dynamic'))
-        out.append(G('static', RS, props, alg='greedy'))
+        RS = [(0, 2), (1, 2), (0, 1), (0, 2), (0, 2), (0, 2), (0, 2), (0, 2)]
+        out.append(G('static', RS, props, T=400, alg='dynamic'))
+        out.append(G('static', RS, props, T=400, alg='greedy'))
         for honest in (True, False):
             out.append(G('adv', [(0, 1), (1, 1), (0, 2), (-1, 2), (-1, 2), (-1, 2), (0, 2), (0, 0)], props, honest=honest))
         out.append(G('delay', [(0, 2), (1, 2), (1, 2), (0, 2), (0, 2), (0, 2), (0, 2), (0, 1)], props, alg='queue'))
